@@ -294,6 +294,45 @@ def tensor_names_obj(model):
     return o
 
 
+def complete_sum(e, n):
+    """(method, content, args, snapshot) if ``e`` is the sum of one recorded Term method over all ``n`` terms of one
+    content, else None."""
+    ts = list(e.args) if isinstance(e, T) and e.op == "add" else [e]
+    if len(ts) != n or not all(isinstance(x, T) and x.op == "mc" and x.args[0] == "Term" for x in ts):
+        return None
+    first = ts[0].args
+    if any(not (isinstance(x.args[2], tuple) and len(x.args[2]) == 2) for x in ts):
+        return None
+    if any(x.args[1] != first[1] or x.args[2][1] != first[2][1] or x.args[3:] != first[3:] for x in ts):
+        return None
+    if sorted(x.args[2][0] for x in ts) != list(range(n)):
+        return None
+    return first[1], first[2][1], first[3], first[4]
+
+
+def _snap_within(inner, outer):
+    if inner is None or outer is None or [k for k, _ in inner] != [k for k, _ in outer]:
+        return False
+    return all(set(a) <= set(b) if isinstance(a, tuple) and isinstance(b, tuple) else a == b
+               for (_, a), (_, b) in zip(inner, outer))
+
+
+def normalise_content(e, n):
+    """Law used when contents are compared: applying the declared bra-ket symmetry with the names S to the result of
+    applying it with names S0, S0 a subset of S, is the same as applying it with S directly (a tensor that already carries
+    its symmetry is left alone).  In particular re-applying an unchanged declaration changes nothing."""
+    r = complete_sum(e, n)
+    if r is None:
+        return e
+    method, e0, args, snap = r
+    e0 = normalise_content(e0, n)
+    if method == "_apply_tensor_braket_sym":
+        r0 = complete_sum(e0, n)
+        if r0 is not None and r0[0] == method and r0[2] == args and _snap_within(r0[3], snap):
+            e0 = r0[1]
+    return t_add(*[T("mc", "Term", method, (k, e0), args, snap) for k in range(n)])
+
+
 class ExprState:
     """The state of an Expr instance: content and assumptions."""
     FIELDS = ("_expr", "_real", "_sym_tensors", "_antisym_tensors", "_target_idx")
@@ -320,15 +359,17 @@ class ExprState:
             return None
         return ExprState(a["_expr"], a["_real"], _as_set(a["_sym_tensors"]), _as_set(a["_antisym_tensors"]), a["_target_idx"])
 
-    def snap(self):
-        return snapshot(self.real, self.sym, self.anti)
+    def snap(self, method=None):
+        return snapshot(self.real, self.sym, self.anti, method)
 
-    def same(self, other):
-        return self.diff(other) == []
+    def same(self, other, n=None):
+        return self.diff(other, n) == []
 
-    def diff(self, other):
+    def diff(self, other, n=None):
         out = []
-        if repr(canon(self.expr)) != repr(canon(other.expr)):
+        a, b = (self.expr, other.expr) if n is None else (normalise_content(_freeze(self.expr), n),
+                                                            normalise_content(_freeze(other.expr), n))
+        if repr(canon(a)) != repr(canon(b)):
             out.append("content")
         if self.real is not other.real:
             out.append("real")
@@ -351,18 +392,27 @@ def _as_set(v):
     return {("?", repr(v))}
 
 
-def snapshot(real, sym_tensors, antisym_tensors):
-    return ("real" if real is True else "complex" if real is False else show(real),
-            tuple(sorted(sym_tensors)), tuple(sorted(antisym_tensors)))
+# Which assumptions of the owning expression the *raw* value (return_sympy=True) of a lower-level method depends on.
+# Recorded calls carry exactly these (so that e.g. setting the real flag before or after renaming amplitudes makes no
+# difference, while declaring a symmetric name after applying the symmetry does).  Rules that rely on an entry verify it
+# by differential evaluation (``depends_only_on``).  Methods not listed depend on everything.
+ALL_DEPS = ("real", "sym_tensors", "antisym_tensors")
+DEPENDS = {"_apply_tensor_braket_sym": ("sym_tensors", "antisym_tensors"), "make_real": (), "rename_tensor": ()}
 
 
-def snapshot_of(owner):
-    """Assumptions of the owning Expr object at this moment."""
+def snapshot(real, sym_tensors, antisym_tensors, method=None):
+    full = {"real": "real" if real is True else "complex" if real is False else show(real),
+            "sym_tensors": tuple(sorted(sym_tensors)), "antisym_tensors": tuple(sorted(antisym_tensors))}
+    return tuple((k, full[k]) for k in DEPENDS.get(method, ALL_DEPS))
+
+
+def snapshot_of(owner, method=None):
+    """Assumptions of the owning Expr object at this moment (those the raw value of ``method`` depends on)."""
     if owner is None:
         return None
     a = owner.attrs
     try:
-        return snapshot(a.get("_real"), _as_set(a.get("_sym_tensors", ())), _as_set(a.get("_antisym_tensors", ())))
+        return snapshot(a.get("_real"), _as_set(a.get("_sym_tensors", ())), _as_set(a.get("_antisym_tensors", ())), method)
     except TypeError:
         return ("?",)
 
@@ -393,7 +443,7 @@ def child(sx, level, ident, owner, label):
 
         def rec(sx_, a, kw, m=m, fn=fn):
             b = sx_.bind(fn, list(a), dict(kw), True, True, True)
-            return mc(level, m, ident, b, snapshot_of(owner))
+            return mc(level, m, ident, b, snapshot_of(owner, m))
         o.attrs[m] = rec
     return o
 
@@ -436,6 +486,13 @@ def _arith_hooks():
 S_OBJ = Obj(None, "S", Zero=0, One=1, NegativeOne=-1)
 
 
+def type_hook(sx, a, kw):
+    """``type(x)`` of an abstract record that models its class is that class (same as ``x.__class__``)."""
+    if len(a) == 1 and isinstance(a[0], Obj) and "__class__" in a[0].attrs:
+        return a[0].attrs["__class__"]
+    return NotImplemented
+
+
 def container_sx(ctx, what, n_terms=2, hooks=None, **kw):
     """Evaluator for container methods: everything of the library is evaluated through except what ``hooks`` model
     (the sympy constructors as arithmetic, the singleton of tensor names, the sympy singletons as integers)."""
@@ -443,9 +500,11 @@ def container_sx(ctx, what, n_terms=2, hooks=None, **kw):
     hk["tensor_names"] = tensor_names_obj(ctx.model)
     hk["S"] = S_OBJ
     hk["sympify"] = lambda sx, a, kw_: a[0]
+    hk["type"] = type_hook
     hk["Expr.terms"] = lambda sx, a, kw_: children_of_expr(sx, a[0], n_terms)
     hk.update(hooks or {})
     kw.setdefault("isinstance_hook", lambda sx, obj, cname: False)
+    kw.setdefault("attr_hook", _number_attr_hook)
     return Symex(ctx.model, inline=lambda q: True, hooks=hk, what=what, **kw)
 
 
@@ -470,9 +529,32 @@ def decided(o, atom):
     return None
 
 
+def root_content(e):
+    """The content a sum of recorded Term calls was derived from (followed down to the original content)."""
+    while True:
+        ts = list(e.args) if isinstance(e, T) and e.op == "add" else [e]
+        if not all(isinstance(x, T) and x.op == "mc" and x.args[0] == "Term" and isinstance(x.args[2], tuple)
+                   and len(x.args[2]) == 2 for x in ts):
+            return e
+        roots = {x.args[2][1] for x in ts}
+        if len(roots) != 1:
+            return e
+        e = roots.pop()
+
+
+def _number_attr_hook(sx, obj, attr, node):
+    """Whether a content is a plain number is a property of the content it was derived from (the image of a number under
+    the container methods is that number), so it is decided once per path."""
+    if attr == "is_number" and isinstance(obj, T):
+        r = root_content(obj)
+        if r is not obj and r != obj:
+            return sx.getattr(r, attr, node)
+    return NotImplemented
+
+
 def is_number(o, e):
     """Did the path decide that the content ``e`` is a plain number?"""
-    return decided(o, T("attr", _freeze(e), "is_number")) is True
+    return decided(o, T("attr", root_content(_freeze(e)), "is_number")) is True
 
 
 def lifted(sx, level, method, idents, inner, snap):
@@ -522,7 +604,7 @@ def sx_term_level(ctx, rule, method, args=None, real_after=None, n=3):
                 me = Obj(f"{EC}:Term", "self", _expr=owner, _pos=0, _sympy=sym("TERM"))
                 me.attrs["objects"] = tuple(child(sx, "Obj", k, owner, f"obj{k}") for k in range(n))
                 return me, dict(args, return_sympy=rs)
-            want = t_mul(*lifted(sx, "Obj", method, range(n), inner, state.snap()))
+            want = t_mul(*lifted(sx, "Obj", method, range(n), inner, state.snap(method)))
             for o, me in run_method(sx, fn, make):
                 key = f"Term.{method} {'raw' if rs else 'wrapped'} {si}"
                 if o.kind != "return":
@@ -557,7 +639,7 @@ def sx_polynom_level(ctx, rule, method, args=None, real_after=None, n=2):
                     me.attrs["terms"] = tuple(child(sx, "Term", (k, base), owner, f"term{k}") for k in range(n))
                     return me, dict(args, return_sympy=rs)
                 want = t_pow(t_add(*lifted(sx, "Term", method, [(k, sym("POLYBASE")) for k in range(n)], inner,
-                                           state.snap())), expo)
+                                           state.snap(method))), expo)
                 for o, me in run_method(sx, fn, make):
                     key = f"Polynom.{method} {'raw' if rs else 'wrapped'} {si} exponent {show(expo)}"
                     if o.kind != "return":
@@ -577,9 +659,17 @@ def _show_args(b):
     return ", ".join(f"{k}={show(v)}" for k, v in b.items())
 
 
+def canonical_content(sx, state, n, base="E0"):
+    """Content of an expression that satisfies the class invariant of Expr: it is the result of applying the declared
+    symmetry of ``state`` (to some content ``base``)."""
+    inner = forwarded(sx, "Term", "_apply_tensor_braket_sym", {})
+    return t_add(*lifted(sx, "Term", "_apply_tensor_braket_sym", [(k, sym(base)) for k in range(n)], inner,
+                         state.snap("_apply_tensor_braket_sym")))
+
+
 def expr_sum(sx, method, state, inner, n):
     """Sum of Term.method over all terms of the content of ``state`` under its assumptions."""
-    return t_add(*lifted(sx, "Term", method, [(k, _freeze(state.expr)) for k in range(n)], inner, state.snap()))
+    return t_add(*lifted(sx, "Term", method, [(k, _freeze(state.expr)) for k in range(n)], inner, state.snap(method)))
 
 
 def sx_expr_level(ctx, rule, method, args=None, n=2, states=None):
@@ -600,7 +690,7 @@ def sx_expr_level(ctx, rule, method, args=None, n=2, states=None):
             if not is_number(o, state.expr):
                 want.expr = expr_sum(sx, method, state, inner, n)
             got = ExprState.of(me)
-            d = ["state destroyed"] if got is None else want.diff(got)
+            d = ["state destroyed"] if got is None else want.diff(got, n)
             ctx.check(rule, fn, not d, f"Expr.{method}: content = sum of {method} over all {n} terms, assumptions untouched",
                       f"Expr.{method}: {', '.join(d)} differ(s) from the sum of t.{method}({_show_args(inner)}) over all terms: "
                       f"got {got.text() if got else '-'}; expected {want.text()}", key=key)
